@@ -19,6 +19,7 @@
     again (eight exchanges later with a full pool; decided on a pool of three and on a pool of eight).
 -/
 import ScionTime.Model.ClientFlow
+import ScionTime.Gen.Client
 import ScionTime.Props.C11
 namespace ScionTime.Props.C11Flow
 open ScionTime.ClientFlow ScionTime.NtsPool ScionTime.C11
@@ -99,5 +100,9 @@ theorem C11Flow_give_back_refuted :
       [⟨[], true, true⟩, ⟨[12], false, false⟩, ⟨[13], false, false⟩, ⟨[14], false, false⟩, ⟨[15], false, false⟩,
        ⟨[16], false, false⟩, ⟨[17], false, false⟩, ⟨[18], false, false⟩, ⟨[19], false, false⟩]).sent =
       [1, 2, 3, 4, 5, 6, 7, 8, 12] := by decide
+
+/-- **Pin** (regenerated from core/client on every run): the clients themselves never call
+    `StoreCookie` — cookies enter the pool through `nts.ProcessResponse` only (`flowStep false`). -/
+theorem C11Flow_pin_no_store_in_client : Gen.Client.clientStoreCookieCalls = 0 := by decide
 
 end ScionTime.Props.C11Flow
